@@ -164,10 +164,11 @@ def harnesses(tier):
         for kind in ("left_join", "anti_join", "full_join"):
             hs.append(Join(kind, ["td"], 2, 2))
         hs.append(Join("semi_join", ["us"], 2, 2))
+        hs.append(Join("left_join", ["ns"], 2, 2)); hs.append(Join("anti_join", ["ns"], 1, 2))
         hs.append(Prepared(Join("left_join", ["T"], 2, 2))); hs.append(Prepared(Join("full_join", ["f"], 2, 2)))
     else:
         for kind in JOINS:
-            for k in ["f", "i", "T", "D", "b", "O", "td", "us"]:
+            for k in ["f", "i", "T", "D", "b", "O", "td", "us", "ns"]:
                 hs.append(Join(kind, [k], 3, 3))
             hs.append(Join(kind, ["i"], 3, 3, renamed=True))
             hs.append(Join(kind, ["i", "f"], 2, 3))
